@@ -147,6 +147,8 @@ def _c17(prop, tier, replay_path):
             return c17b.check_msgqueue(prop, tier, replay_path)
         if kind == "TestVerifTqsim":
             return c17b.check_sendqueue(prop, tier, replay_path)
+        if kind == "TestVerifTssim":
+            return c17b.check_snapshotsend(prop, tier, replay_path)
         if kind == "TestVerifNhsim":
             with open(replay_path) as fh:
                 mode = json.load(fh).get("batch", {}).get("mode")
@@ -155,7 +157,8 @@ def _c17(prop, tier, replay_path):
             return nhfamily.check_c17_hosts(prop, tier, replay_path)
         return raftfamily.check(prop, tier, replay_path)
     rs = [raftfamily.check(prop, tier, None), c17b.check_quiesce(prop, tier, None), c17b.check_ratelimit(prop, tier, None),
-          c17b.check_msgqueue(prop, tier, None), c17b.check_sendqueue(prop, tier, None), nhfamily.check_c17_hosts(prop, tier, None),
+          c17b.check_msgqueue(prop, tier, None), c17b.check_sendqueue(prop, tier, None), c17b.check_snapshotsend(prop, tier, None),
+          nhfamily.check_c17_hosts(prop, tier, None),
           nhfamily.check_c17_catchup(prop, tier, None)]
     return 1 if 1 in rs else max(rs)
 
